@@ -261,9 +261,27 @@ def r02c(run):
                       construct="combinator instancecheck", message="__instancecheck__ returns True for a combinator "
                       "type without an isinstance test on an argument", node=n.ast)
             continue
-        origin_ok = any(t == f"isinstance({obj}, origin)" and not p for t, p in facts) is False and any(
-            (t == f"not isinstance({obj}, origin)" and not p) or (t == f"isinstance({obj}, origin)" and p)
-            for t, p in facts)
+        def is_origin(e) -> bool:
+            # `cls.__origin__`, or a local bound to it (directly or through getattr), whatever the local is called
+            if "__origin__" in unparse(e):
+                return True
+            if isinstance(e, ast.Name):
+                defs = fa.rd.defs_of(n, e.id)
+                return bool(defs) and all(d.kind == "stmt" and isinstance(d.ast, ast.Assign)
+                                          and "__origin__" in unparse(d.ast.value) for d in defs)
+            return False
+
+        def origin_test(a):
+            neg = False
+            while isinstance(a, ast.UnaryOp) and isinstance(a.op, ast.Not):
+                a, neg = a.operand, not neg
+            if isinstance(a, ast.Call) and call_name(a) == "isinstance" and len(a.args) == 2 \
+                    and unparse(a.args[0]) == obj and is_origin(a.args[1]):
+                return neg
+            return None
+        pols = [(origin_test(a), p) for a, p in fa.facts.atoms_at(n)]
+        pols = [(p != neg) for neg, p in pols if neg is not None]       # True = the value is an instance of the origin
+        origin_ok = bool(pols) and all(pols)
         parsed = any(fa.cfg.dominates(pc, n) for pc in parse_calls)
         run.check("R02c", f, "constrained type: True only after isinstance(obj, origin) and a successful cls(obj) parse",
                   origin_ok and parsed, construct="instancecheck does not parse",
@@ -347,8 +365,25 @@ def r02d(run, C, names):
                   message=f"Rule has no class attribute `{c}`")
     # generate_validators looks validators up by the constraint's own name (mode prefix only)
     g = run.repo.func("utype.parser.rule", "Constraints.generate_validators")
-    ok = any(isinstance(c, ast.Call) and call_attr(c) == "getattr" and len(c.args) >= 2 and unparse(c.args[1]) == "name"
-             for c in walk_shallow(g.node))
+    ga = analysis(g)
+    ok = False
+    for n, c in ga.all_calls():
+        if not (call_name(c) == "getattr" and len(c.args) >= 2 and "__class__" in unparse(c.args[0])
+                and isinstance(c.args[1], ast.Name)):
+            continue
+        # the looked-up name derives, on every definition, from the key of the constraints loop (mode prefix allowed)
+        loops = [m for m in ga.cfg.nodes if m.kind == "iter" and ga.cfg.dominates(m, n)]
+        keys = set()
+        for m in loops:
+            tg = m.stmt.target if isinstance(m.stmt, (ast.For, ast.AsyncFor)) else None
+            if tg is not None:
+                first = tg.elts[0] if isinstance(tg, ast.Tuple) else tg
+                keys |= {x.id for x in ast.walk(first) if isinstance(x, ast.Name)}
+        defs = ga.rd.defs_of(n, c.args[1].id)
+        if c.args[1].id in keys:
+            ok = True
+        elif defs and all(d.kind == "stmt" and isinstance(d.ast, ast.Assign) and keys & names_in(d.ast.value) for d in defs):
+            ok = True
     run.check("R02d", g, "validators are looked up by the constraint's own (mode-prefixed) name", ok,
               construct="validator lookup", message="generate_validators does not look validators up by name")
 
@@ -359,6 +394,12 @@ def r02_contains(run):
     fa = analysis(f)
     from ..cfg import is_handle_error_call
     rels = {}
+    # the counter is found by role: the local that is incremented
+    counters = sorted({n.ast.target.id for n in fa.cfg.nodes if n.kind == "stmt" and isinstance(n.ast, ast.AugAssign)
+                       and isinstance(n.ast.target, ast.Name) and isinstance(n.ast.op, ast.Add)})
+    if len(counters) != 1:
+        raise AnalysisError(f"R02a: _parse_contains has no single counter (found {counters})")
+    K = counters[0]
     for n, c in fa.all_calls():
         if not is_handle_error_call(c) or not c.args:
             continue
@@ -367,9 +408,9 @@ def r02_contains(run):
         facts = [(unparse(a), p) for a, p in fa.facts.atoms_at(n)]
         rels[cname] = facts
     exp = {
-        "contains": lambda fs: ("contains", False) in fs or ("not contains", True) in fs,
-        "min_contains": lambda fs: ("contains < cls.min_contains", True) in fs,
-        "max_contains": lambda fs: ("contains > cls.max_contains", True) in fs,
+        "contains": lambda fs: (K, False) in fs or (f"not {K}", True) in fs,
+        "min_contains": lambda fs: (f"{K} < cls.min_contains", True) in fs,
+        "max_contains": lambda fs: (f"{K} > cls.max_contains", True) in fs,
     }
     for k, pred in exp.items():
         ok = k in rels and pred(rels[k])
@@ -378,7 +419,7 @@ def r02_contains(run):
                   necessity="the count boundary (exactly min / max matching items) is decided wrongly")
     # counting: +1 exactly on the no-exception path of the item conversion
     incs = [n for n in fa.cfg.nodes if n.kind == "stmt" and isinstance(n.ast, ast.AugAssign)
-            and unparse(n.ast.target) == "contains"]
+            and unparse(n.ast.target) == K]
     ok = len(incs) == 1 and isinstance(incs[0].ast.value, ast.Constant) and incs[0].ast.value.value == 1
     if ok:
         # the increment is not reachable from the handler
